@@ -25,6 +25,7 @@ import (
 	"context"
 	"errors"
 	"fmt"
+	"os"
 	"sort"
 	"strconv"
 	"strings"
@@ -1225,6 +1226,9 @@ func main() {
 	witnessLag(run)
 	witnessRestore(run)
 	nCases := run.Scale(400, 4000)
+	if os.Getenv("C18_ONLY_CONCURRENT") != "" { // development aid: skip the controlled cases
+		nCases = 0
+	}
 	for i := 0; i < nCases; i++ {
 		controlledCase(run, run.RNG.Fork(uint64(i)), 60)
 	}
